@@ -16,6 +16,7 @@ RULE = ('models: fixed regression catalogue + exhaustive enumeration of small mo
         'independent reference matchers; a case = (version, model, word); non-trivial case = model with nesting, a '
         'non-default group occurrence or a non-element leaf, counted once per distinct (version, canonical model) that '
         'was compared on at least one accepted and one rejected word')
+RULE += (' ' + 'XSD 1.1 wildcards with notQName="##definedSibling" (they refuse every name the same content model declares, at any depth) are part of the catalogue and of the random models.')
 ASSUMPTIONS = [
     'children are empty xs:string leaves so only the content model decides validity',
     'domain = models deterministic under the XSD 1.0 UPA reading by both reference formulations; for XSD 1.1 words on '
